@@ -22,7 +22,8 @@ MANIFEST = dict(
               "csg_resample, and outputs of large random tables are validated by TLC (trace direction)",
     text="TLC chooses every case (script, options, tables of 3..8 points, Boltzmann inversion 10..19) as a function of "
          "(script, size, seed), checks the algebra of the documented operators on it and prints the expected output "
-         "(exact rationals; admissible alternatives where the documentation is two-valued or silent); the check writes "
+         "(exact rationals; admissible alternatives where the documentation is two-valued or silent; equidistant and "
+         "non-equidistant grids; csg_resample also on 45..101-point decimal-step tables with late flag transitions); the check writes "
          "the input files, runs update_ibi_pot.pl, dist_boltzmann_invert.pl, table_{linearop,combine,scale,integrate,"
          "smooth,extrapolate,get_value,switch_border}.pl, merge_tables.pl, add_POT.pl, potential_shift.pl, dist_adjust.pl "
          "directly (a share through csg_call), table_{change_flag,dummy,average}.sh and potential_extrapolate.sh through "
@@ -704,7 +705,10 @@ def run(ctx):
                 "input, compared point by point with the TLC expectation; trace: one run on a large random table, judged by "
                 "TLC; non-trivial = distinct (script, option variant, size); an evaluation = one compared number")
     ctx.assumptions += [
-        "inputs are dyadic rationals k/d (d in 1,2,4) on grids (x0+i)*h, h in 1/8..1; distributions are 2^e (e in -6..6) or 0; "
+        "inputs are dyadic rationals k/d (d in 1,2,4) on grids (x0+g_i)*h, h in 1/8..1, g equidistant or strictly increasing with "
+        "gaps 1..3 (no help text restricts a tool to equidistant tables; trapezoid and slopes are stated for general gaps); "
+        "csg_resample on the grid of its input additionally with >= 40 points and decimal steps 0.05, 0.1, 0.01k and flag "
+        "transitions at late points (flags must be preserved exactly); distributions are 2^e (e in -6..6) or 0; "
         "kT = c/ln 2; --min = 1.5*2^m: no decision of a script sits on a rounding boundary",
         "values are compared with 1e-9 (relative above 1), flags and row count exactly, abscissae to 1e-12",
         "two-valued points (DESIGN 7.3a scan start of update_ibi_pot.pl, several maxima of the current rdf, closest-point "
